@@ -10,6 +10,8 @@ static thread_local int g_abort_flag = 0;
 #include "rlbox.hpp"
 #include "mbox.hpp"
 #include "vcommon.hpp"
+#include "vstruct.hpp"
+rlbox_load_structs_from_library(vlib);
 
 using namespace vc;
 
@@ -240,6 +242,20 @@ static typename SBT::T_IntType guest_call_cb(typename SBT::T_PointerType cb)
   g_guest_seen = as_i128(r);
   return 0;
 }
+
+template<class SBT>
+static typename SBT::T_IntType guest_take_vt(rlbox::Sbx_vlib_VT<SBT> v) { g_guest_seen = as_i128(v.y); g_guest_calls++; return 0; }
+template<class SBT>
+static rlbox::Sbx_vlib_VT<SBT> guest_give_vt()
+{
+  rlbox::Sbx_vlib_VT<SBT> v{};
+  v.x = 1;
+  v.y = (decltype(v.y))g_guest_give;
+  v.z = 2;
+  return v;
+}
+int take_vt(VT v);
+VT give_vt();
 
 template<class Abi>
 struct SL
@@ -477,6 +493,57 @@ struct SL
     }
   }
 
+  // Integer FIELDS of a registered struct moved as a whole: store / load of the struct in sandbox memory, by-value argument, by-value result
+  static void struct_routes(sbx_t& sb)
+  {
+    uint64_t idx = g_pair_idx++;
+    if (g_replaying || !mine(idx)) return;
+    using GS = rlbox::Sbx_vlib_VT<SB>;
+    using GL = decltype(GS{}.y);
+    setadd("call_types", std::string(Abi::name) + ":struct field long<->" + std::to_string(sizeof(GL) * 8));
+    auto p = sb.template malloc_in_sandbox<VT>(2);
+    GS* raw = (GS*)p.UNSAFE_unverified();
+    auto report = [&](const char* route, i128 m, bool rep, i128 got) {
+      n_eval++;
+      if (m < 0 || m > 127) n_nontriv++;
+      if (!rep) n_mustabort++;
+      std::string sg = std::string("C06 route=") + route + " abi=" + Abi::name + " type=long";
+      std::string k = std::string(route) + ":" + Abi::name + ":long:" + str(m);
+      if (rep && g_abort_flag) viol(sg + " kind=spurious-abort", k, "representable value " + str(m) + " aborted");
+      else if (rep && got != m) viol(sg + " kind=value-changed", k, "field sent as " + str(m) + " received as " + str(got));
+      else if (!rep && !g_abort_flag) viol(sg + " kind=silent-wrap", k, "field value " + str(m) + " is not representable in the destination type, no abort, destination received " + str(got));
+    };
+    for (long v : lattice<long>()) {
+      i128 m = as_i128(v);
+      tn<VT> s;
+      s.x = 1;
+      s.y = v;
+      s.z = 2;
+      memset((void*)raw, 0, sizeof(GS));
+      g_abort_flag = 0;
+      *p = s;
+      report("struct-store", m, representable<GL>(m), as_i128(raw->y));
+      g_abort_flag = 0;
+      g_guest_seen = -7777;
+      (void)sb.template INTERNAL_invoke_with_func_ptr<decltype(take_vt)>("take_vt", (void*)&guest_take_vt<SB>, s);
+      report("struct-argument", m, representable<GL>(m), g_guest_seen);
+    }
+    for (GL g : lattice<GL>()) {
+      i128 m = as_i128(g);
+      raw->x = 1;
+      raw->y = g;
+      raw->z = 2;
+      g_abort_flag = 0;
+      tn<VT> s = *p;
+      report("struct-load", m, representable<long>(m), as_i128(s.y.UNSAFE_unverified()));
+      g_guest_give = m;
+      g_abort_flag = 0;
+      tn<VT> r = sb.template INTERNAL_invoke_with_func_ptr<decltype(give_vt)>("give_vt", (void*)&guest_give_vt<SB>);
+      report("struct-result", m, representable<long>(m), as_i128(r.y.UNSAFE_unverified()));
+    }
+    sb.free_in_sandbox(p);
+  }
+
   static void run(int inst)
   {
     sbx_t sb;
@@ -493,6 +560,7 @@ struct SL
       cell_type<T>(sb);
       call_type<T>(sb);
     });
+    struct_routes(sb);
     sb.destroy_sandbox();
   }
 };
